@@ -1,3 +1,9 @@
 // Pasted into protocols/relay/src/behaviour/rate_limiter.rs (mod verif) under cfg(kani).
 #[allow(unused_imports)]
 use super::*;
+
+pub(crate) mod c48 {
+    #[allow(unused_imports)]
+    use super::super::*;
+    include!(concat!(env!("LIBP2P_VERIF"), "/units/C48/bucket.rs"));
+}
